@@ -932,10 +932,17 @@ class PeerGetDirectoryContentCommand(BaseCommand[PeerDirectoryContentsReply.Requ
         self.directory: str = directory
         self._ticket: Optional[int] = None
 
+    def _get_ticket(self, client: SoulSeekClient) -> int:
+        # The expected response is built before the request is sent, the ticket
+        # needs to be the same for both
+        if self._ticket is None:
+            self._ticket = next(client.ticket_generator)
+        return self._ticket
+
     async def send(self, client: SoulSeekClient):
-        self._ticket = next(client.ticket_generator)
         await client.network.send_peer_messages(
-            self.username, PeerDirectoryContentsRequest.Request(self._ticket, self.directory)
+            self.username,
+            PeerDirectoryContentsRequest.Request(self._get_ticket(client), self.directory)
         )
 
     def build_expected_response(self, client: SoulSeekClient) -> Optional[ExpectedResponse]:
@@ -944,7 +951,7 @@ class PeerGetDirectoryContentCommand(BaseCommand[PeerDirectoryContentsReply.Requ
             PeerDirectoryContentsReply.Request,
             peer=self.username,
             fields={
-                'ticket': self._ticket,
+                'ticket': self._get_ticket(client),
                 'directory': self.directory
             }
         )
